@@ -23,3 +23,8 @@
 (assert (forall ((e V) (v V)) (! (=> (not (k_np v)) (and (= (sem e v) (and (accepts_all (validators_of e) v) (csem e v)))
                                                            (= (build e v) (cbuild e v)))) :pattern ((sem e v)))))
 (assert (forall ((e V) (v V)) (! (=> (not (k_np v)) (= (build e v) (cbuild e v))) :pattern ((build e v)))))
+; what calling an element with no value yields (its converted default, the raw default, or NotPassed): C05's clause,
+; characterised by the contract of Element.__call__ / Object.__new__
+(declare-fun dflt (V) V)
+; Properties.__getitem__(k): the property governing key k
+(declare-fun prop_for (V String) V)
